@@ -150,6 +150,11 @@ def rand_dag_edges(rng, n, shape=None, p=None):
     elif shape == "tree":
         for i in range(1, n):
             E.add((rng.randrange(i), i))
+    elif shape == "ring" and n >= 3:
+        # 0 -> 1 -> ... -> n-1 and 0 -> n-1: the moral graph has the chordless cycle 0-1-...-(n-2)-0 of length n-1
+        for i in range(n - 1):
+            E.add((i, i + 1))
+        E.add((0, n - 1))
     else:
         p = p if p is not None else rng.choice([.25, .4, .6])
         for i in range(n):
